@@ -567,7 +567,8 @@ pub fn run_c16(_args: &Args, tier: &str, seed: u64) -> Report {
         }
         if success && !should {
             // "nothing outside the successful class 0x0000-0x00ff ever is"
-            if code > 0x00ff || reg::lookup(reg::STATUS, code).is_none() {
+            // codes 0x0003..=0x00ff belong to the successful class: the property leaves their verdict open
+            if code > 0x00ff {
                 rep.violation(format!("C16:success:false-positive:{code:#06x}"), format!("{code:#06x} ({sym}) is reported successful"), none());
             }
         }
@@ -737,7 +738,7 @@ pub fn run_c16(_args: &Args, tier: &str, seed: u64) -> Report {
         }
     }
     rep.sample(J::obj().with("status_0x040A", format!("{:?}", StatusCode::from_u16(0x040A))).with("operation_0x4002", format!("{:?}", Operation::from_u16(0x4002))).with("value_tag_0x4a", format!("{:?}", ValueTag::from_u8(0x4a))).with("finishings_85", format!("{:?}", Finishings::from_i32(85))));
-    rep.rule = "Complete enumeration against registry tables embedded in the harness (RFC 8010 3.5, RFC 8011 5/App. B, PWG 5100.1, CUPS): all 65536 16-bit values through StatusCode::from_u16, IppHeader::status_code, is_success and Operation::from_u16; all 256 bytes through DelimiterTag / ValueTag; -4..=65535 (+extremes) through the five attribute enums; the tag emitted for each of the 21 non-set kinds and for every value decoded from each of the 256 tag bytes over 74 bodies (fill patterns, text with spaces / slashes / commas / non-ASCII / control characters); every recognised variant cast back to its integer. Rules: registered code -> the variant the registry names for it (name comparison modulo case/punctuation); other codes -> unknown or a symbol that names no registered code; success <=> code in {0,1,2}; from(x) as int == x. distinct_nontrivial = registered status codes checked.".into();
+    rep.rule = "Complete enumeration against registry tables embedded in the harness (RFC 8010 3.5, RFC 8011 5/App. B, PWG 5100.1, CUPS): all 65536 16-bit values through StatusCode::from_u16, IppHeader::status_code, is_success and Operation::from_u16; all 256 bytes through DelimiterTag / ValueTag; -4..=65535 (+extremes) through the five attribute enums; the tag emitted for each of the 21 non-set kinds and for every value decoded from each of the 256 tag bytes over 74 bodies (fill patterns, text with spaces / slashes / commas / non-ASCII / control characters); every recognised variant cast back to its integer. Rules: registered code -> the variant the registry names for it (name comparison modulo case/punctuation); other codes -> unknown or a symbol that names no registered code; success for 0x0000-0x0002, never for a code above 0x00ff (0x0003-0x00ff left open, as the property does); from(x) as int == x. distinct_nontrivial = registered status codes checked.".into();
     rep
 }
 
@@ -771,7 +772,16 @@ enum StateIn {
 }
 
 fn c17_expect(code: u16, state: &StateIn, reasons: &Option<Vec<String>>) -> Want {
-    if !reg::SUCCESS_CODES.contains(&(code as u32)) {
+    // successful: the RFC 8011 successful codes; never a code above 0x00ff; for the unassigned codes of the successful class
+    // (0x0003..=0x00ff) the property (C16) leaves the verdict to the library, and the helper must follow the library's own is_success()
+    let successful = if reg::SUCCESS_CODES.contains(&(code as u32)) {
+        true
+    } else if code > 0x00ff {
+        false
+    } else {
+        IppHeader::new(IppVersion::v1_1(), code, 1).status_code().is_success()
+    };
+    if !successful {
         return Want::Err(code);
     }
     if matches!(state, StateIn::Enum(5)) {
